@@ -5,6 +5,8 @@
 //   qsum  m n q(4 x m) r(3 x n)       -> "ok" 4n numbers   sum_quaternion_rotation_vector(q, r)
 //   qdiff n m ql(4 x n) qr(4 x m)     -> "ok" 3n numbers   diff_quaternion(ql, qr)
 //   qmean n w(n) q(4 x n)             -> "ok" 4 numbers    mean_quaternion(w, q)
+//   qsumchain n q(4) r(3 x n)         -> "ok" 4n numbers   q_k = sum_quaternion_rotation_vector(q_{k-1}, r_k): the history of an attitude
+//                                                          state driven by n increments (every intermediate state is printed)
 //
 // Matrices are column-major.  Arguments are copied before the call and compared afterwards.
 #include "common.hpp"
@@ -65,6 +67,23 @@ static std::string qdiff(Toks& t) {
     Out o; o.s("ok"); o.m(res); return o.str();
 }
 
+static std::string qsumchain(Toks& t) {
+    long n = t.nat();
+    MatrixXd q = t.mat(4, 1);
+    MatrixXd r = t.mat(3, n);
+    t.done();
+    MatrixXd res(4, n);
+    MatrixXd cur = q;
+    for (long k = 0; k < n; ++k) {
+        MatrixXd rk = r.col(k);
+        MatrixXd nxt = bfl::utils::sum_quaternion_rotation_vector(cur, rk);
+        if (nxt.rows() != 4 || nxt.cols() != 1) return shape_err(nxt.rows(), nxt.cols(), 4, 1);
+        res.col(k) = nxt.col(0);
+        cur = nxt;
+    }
+    Out o; o.s("ok"); o.m(res); return o.str();
+}
+
 static std::string qmean(Toks& t) {
     long n = t.nat();
     VectorXd w = t.vec(n);
@@ -118,6 +137,7 @@ int main() {
         if (op == "qsum") { out = qsum(t); return true; }
         if (op == "qdiff") { out = qdiff(t); return true; }
         if (op == "qmean") { out = qmean(t); return true; }
+        if (op == "qsumchain") { out = qsumchain(t); return true; }
         if (op == "qexpf" || op == "qlogf" || op == "qsumf" || op == "qdifff" || op == "qmeanf") { out = f_ops(op, t); return true; }
         return false;
     });
